@@ -73,6 +73,9 @@ func run(c *harness.Ctx, i int) {
 		o.FixedFanout = i - 1
 	} else if rng.Intn(4) == 0 {
 		o.FixedFanout = 131 + rng.Intn(500)
+		if rng.Intn(4) == 0 {
+			o.FixedFanout = 1025 + rng.Intn(600) // more than one readdir batch
+		}
 		if c.Tier == "thorough" && rng.Intn(10) == 0 {
 			o.FixedFanout = 1000 + rng.Intn(4000)
 		}
@@ -113,6 +116,10 @@ func run(c *harness.Ctx, i int) {
 			}
 			if strings.ContainsAny(e.Path, "\x00") || len(e.Path) > 3000 {
 				continue
+			}
+			if e.Kind == "file" && !strings.Contains(e.Path, "/") && rng.Intn(6) == 0 {
+				// names longer than a filesystem allows (PAX long names): only a tar stream can carry them
+				e.Path = e.Path + strings.Repeat("L", 256+rng.Intn(700))
 			}
 			h := &tar.Header{Name: e.Path, Mode: int64(e.Mode & 0777), Uid: e.UID, Gid: e.GID, ModTime: time.Unix(0, e.MTime), Format: tar.FormatPAX}
 			switch e.Kind {
